@@ -259,9 +259,43 @@ fn typeof_stream(out: &mut Out, thorough: bool, rng: &mut Rng) {
         out.line(&format!("C typeof {} {}", ctx.name(), n.wire()), &ans);
     }
     for ctx in CtxK::ALL {
-        let atoms = ast::default_atoms(ctx, !thorough);
-        let pool: Vec<Node> = ast::enumerate(ctx, &atoms, 1, if thorough { 12 } else { 5 }, rng).into_iter().map(|t| t.node).collect();
+        // full atoms in every tier: all hash kinds, both lock units, uncompressed keys (Bare/Legacy)
+        let atoms = ast::default_atoms(ctx, false);
+        let mut pool: Vec<Node> = ast::enumerate(ctx, &atoms, 1, if thorough { 12 } else { 4 }, rng).into_iter().map(|t| t.node).collect();
+        // raw key hashes are typed by their own arm of the dispatch
+        let rb = if ctx == CtxK::Tap { 200 } else { 0 };
+        pool.push(Node::RawPkH(rb));
+        pool.push(Node::Check(Box::new(Node::RawPkH(rb))));
         let bx = |n: &Node| Box::new(n.clone());
+        // every pool member itself (leaves included), and the sugar shapes around it
+        for a in &pool {
+            crate::with_ctx!(ctx, one(out, ctx, a));
+            for w in [Node::AndV(bx(a), Box::new(Node::True)), Node::OrI(Box::new(Node::False), bx(a)), Node::OrI(bx(a), Box::new(Node::False)),
+                      Node::AndOr(bx(a), bx(&pool[0]), Box::new(Node::False)), Node::AndOr(bx(a), Box::new(Node::False), bx(&pool[0])),
+                      Node::Thresh(1, vec![a.clone()])] {
+                crate::with_ctx!(ctx, one(out, ctx, &w));
+            }
+        }
+        // the unchecked combinators must carry the type from_ast computes
+        {
+            use miniscript::{Miniscript, Threshold};
+            fn chk<Pk: ast::KeyOf, Ctx: miniscript::ScriptContext>(out: &mut Out, ctx: CtxK, tap: bool) {
+                let ks: Vec<u32> = if tap { vec![209, 208, 201] } else { vec![9, 8, 1] };
+                let keys: Vec<Pk> = ks.iter().map(|i| Pk::of(*i)).collect();
+                if tap {
+                    if let Ok(t) = Threshold::new(2, keys.clone()) { let m = Miniscript::<Pk, Ctx>::sortedmulti_a(t); out.line(&format!("C typeof {} {}", ctx.name(), Node::SortedMultiA(2, ks.clone()).wire()), &ts(&m.ty)); }
+                    if let Ok(t) = Threshold::new(2, keys) { let m = Miniscript::<Pk, Ctx>::multi_a(t); out.line(&format!("C typeof {} {}", ctx.name(), Node::MultiA(2, ks.clone()).wire()), &ts(&m.ty)); }
+                } else {
+                    if let Ok(t) = Threshold::new(2, keys.clone()) { let m = Miniscript::<Pk, Ctx>::sortedmulti(t); out.line(&format!("C typeof {} {}", ctx.name(), Node::SortedMulti(2, ks.clone()).wire()), &ts(&m.ty)); }
+                    if let Ok(t) = Threshold::new(2, keys) { let m = Miniscript::<Pk, Ctx>::multi(t); out.line(&format!("C typeof {} {}", ctx.name(), Node::Multi(2, ks.clone()).wire()), &ts(&m.ty)); }
+                }
+                let k0 = Pk::of(if tap { 200 } else { 0 });
+                out.line(&format!("C typeof {} {}", ctx.name(), Node::Check(Box::new(Node::PkK(if tap { 200 } else { 0 }))).wire()), &ts(&Miniscript::<Pk, Ctx>::pk(k0.clone()).ty));
+                out.line(&format!("C typeof {} {}", ctx.name(), Node::Check(Box::new(Node::PkH(if tap { 200 } else { 0 }))).wire()), &ts(&Miniscript::<Pk, Ctx>::pkh(k0).ty));
+            }
+            let tap = ctx == CtxK::Tap;
+            crate::with_ctx!(ctx, chk(out, ctx, tap));
+        }
         let pick = |rng: &mut Rng| pool[rng.below(pool.len())].clone();
         for a in &pool {
             for w in [Node::Alt(bx(a)), Node::Swap(bx(a)), Node::Check(bx(a)), Node::DupIf(bx(a)), Node::Verify(bx(a)),
